@@ -135,6 +135,13 @@ package backend
 //@   ensures [nothing-else-is-returned] err == nil && resp.Kv != nil ==> first_is_version_of(r.Key) && resp.Kv.Value == rec_val[0] && resp.Kv.Revision == rec_rev[0]
 //@   ensures [header-not-below-the-data] err == nil ==> resp != nil && resp.Header != nil && (resp.Kv != nil ==> resp.Header.Revision >= resp.Kv.Revision)
 
+// Count: the header names the committed revision; the count is the scanner's (C20: no panic for any request)
+//@ func (*backend).Count(ctx, r) (resp, err)
+//@   props C03 C20
+//@   requires wf_backend(b) && b.scanner != nil && r != nil
+//@   modifies *
+//@   ensures [answer-or-error] err == nil ==> resp != nil && resp.Header != nil
+
 // ---- C03: the limited list, end to end ----
 //@ func (*backend).List(ctx, r) (resp, err)
 //@   props C02 C03 C20
